@@ -346,9 +346,9 @@ SOLO_COMPOSITES = [
     L("oneof3_nonadjacent_tuple", {"oneOf": [{"type": "array", "items": [INT, INT], "minItems": 2, "maxItems": 2}, obj({"p": STR}, ["p"]),
                                              {"type": "array", "items": [INT, INT, INT], "minItems": 3, "maxItems": 3}]}, enf=True),
     # tuple positions that are DIFFERENT in-line objects (each needs a generated name of its own), also next to a fixed array of in-line objects
-    L("tuple_two_objs", {"type": "array", "items": [obj({"x": INT, "label": STR}, ["x"]), obj({"x": INT, "weight": {"type": "number"}}, ["x"])], "minItems": 2, "maxItems": 2}, enf=True),
+    L("tuple_two_objs", {"type": "array", "items": [obj({"x": INT, "label": STR}, ["x"]), obj({"x": INT, "weight": {"type": "number"}}, ["x"])], "minItems": 2, "maxItems": 2}, enf=True, depth=3),
     L("tuple_obj_enum_obj", {"type": "array", "items": [obj({"a": STR}), {"type": "string", "enum": ["p", "q"]}, obj({"b": INT}), {"type": "string", "enum": ["r", "s"]}],
-                             "minItems": 4, "maxItems": 4}, enf=True),
+                             "minItems": 4, "maxItems": 4}, enf=True, depth=3),
     # a tagged variant carrying ANOTHER required single-valued string property that sorts before the tag name and exists in that variant only
     L("int_tag_extra_const_before", {"oneOf": [obj({"kind": {"type": "string", "enum": ["circle"]}, "api": {"type": "string", "enum": ["v1"]}, "radius": INT}, ["kind", "api", "radius"]),
                                                obj({"kind": {"type": "string", "enum": ["square"]}, "side": INT}, ["kind", "side"])]}, enf=True),
@@ -826,7 +826,7 @@ def place(shape, ctx):
     target = None if ctx["id"] == "root" else "T"
     return {"id": "%s@%s" % (shape["id"], ctx["id"]), "doc": doc, "target": target, "ff": shape["ff"] and ctx["ff"],
             "enf": shape["enf"] and ctx["enf"], "strish": shape.get("strish", False) and ctx["id"] in ("def", "ref_alias", "allof1"),
-            "shape": shape["id"], "ctx": ctx["id"], "tg": shape.get("tg"), "sup": shape.get("sup", True)}
+            "shape": shape["id"], "ctx": ctx["id"], "tg": shape.get("tg"), "sup": shape.get("sup", True), "depth": shape.get("depth")}
 
 
 def space_depth2(tier, contexts=None):
